@@ -215,6 +215,40 @@ theorem coarsen_coded_failure_modes :
   refine ⟨⟨_, rfl, ?_⟩, rfl, rfl⟩
   decide +kernel
 
+/-! ### after the `fix:` commit (current extent on every level) -/
+
+/-- multi-level coarsening as coded now IS the iterated single-level coarsening, for every extent and every number of
+levels: it never raises and never broadcasts -/
+theorem coarsen_levels_is_iterated (l n : Nat) (g : Nat → Rat) :
+    coarsenLevels l n g = .ok (coarsenIdeal l n g) := coarsenLevels_eq_ideal l n g
+
+/-- ... and it conserves the integral whenever `2^levels` divides the extent -/
+theorem coarsen_levels_pow2_conservative (D : Rat) (n l : Nat) (hn : 0 < n) (h : 2 ^ l ∣ n) (g : Nat → Rat) :
+    ∃ m g', coarsenLevels l n g = .ok (m, g') ∧ m * 2 ^ l = n ∧
+      D / (m : Rat) * sumRange m g' = D / (n : Rat) * sumRange n g := by
+  obtain ⟨m, g', h1, h2, h3⟩ := coarsen_coded_pow2_conservative D n l hn h g
+  refine ⟨m, g', ?_, h2, h3⟩
+  rw [coarsenLevels_eq_ideal, ← coarsenCodedLevels_pow2 n l n g h (Nat.le_refl n)]
+  exact h1
+
+/-! ### the canvas of `superpose` -/
+
+/-- `superpose` of voxel-aligned images of one voxel size: with the canvas COMPUTED from the extremal corners
+(`canvasOf`) and the positions computed from the canvas origin (`onCanvas`), the sum over the canvas is the sum of the
+images' sums — no hypothesis that the images fit: `canvas_fits` proves it. -/
+theorem superpose_canvas_sum (imgs : List PlacedZ) :
+    sumBox (canvasOf imgs).shape (superpose (imgs.map (onCanvas (canvasOf imgs))))
+      = sumList (imgs.map fun p => sumBox [p.rows, p.cols] p.val) := by
+  rw [superpose_aligned (canvasOf imgs).shape (imgs.map (onCanvas (canvasOf imgs)))]
+  · simp only [List.map_map]; rfl
+  · intro q hq
+    obtain ⟨p, hp, rfl⟩ := List.mem_map.mp hq
+    exact canvas_fits imgs p hp
+
+/-- a single image is its own canvas -/
+theorem canvas_single (p : PlacedZ) : (canvasOf [p]).shape = [p.rows, p.cols] ∧ (onCanvas (canvasOf [p]) p).offset = [0, 0] := by
+  simp [canvasOf, onCanvas, minOf, maxOf]
+
 /-! ### metadata of `Resize` and `equalize_voxel_size` -/
 
 /-- `Resize` keeps the physical extent and placement (dimensions, origin); only the shape changes ... -/
